@@ -7,7 +7,7 @@ RULE = ("random polylines (degree 1, 1..5 segments, 2-D and 3-D, float data, uni
         "curve, points equidistant from two segments, points beyond the ends; random curves of degree 2..3 and rational arcs (soundness conditions "
         "only); every call under a wall-clock cap.  Non-trivial: at least two segments or degree >= 2; distinct = distinct (curve, point)."
         " Also: far points whose two nearest candidates differ by about 3e-6 of the distance, single-span curves that clean() could reduce; one Curve object projected on, given other "
-        "weights through the setter, projected on again; integer knot vectors given as python ints with spans 2..4; real-valued curves (scalar control points) of degree 3..4; polylines and parabolas made of disjoint pieces (interior knots of multiplicity degree + 1) with points on a piece.")
+        "weights through the setter, projected on again; integer knot vectors given as python ints with spans 2..4; real-valued curves (scalar control points) of degree 3..4; polylines and parabolas made of disjoint pieces (interior knots of multiplicity degree + 1) with points on a piece; for every curved or weighted curve the closest of 64 samples per span must not be closer to P than the answer.")
 EXPLANATION = ("L3: the exact nearest-point oracle for polylines (`geom.nearest`, minimum of the per-segment quadratics over Q, proved optimal) gives "
                "the minimal distance; the returned tuple is checked for non-emptiness, order, range, equal distances (1e-6), minimality, "
                "stationarity of interior non-knot parameters (exact derivative via `rf.evalderiv`), termination and unchanged operands.")
@@ -87,6 +87,19 @@ def run_case(ctx, case):
         if abs(min(ds) - dmin) > 1e-7 * max(1.0, dmin) or max(ds) - dmin > 1e-6:
             rec.violation("returned distance is not the minimum over the interval", case, returned=ds, minimum=dmin, minimisers=ser(o[1][1]), parameters=ts)
             return
+    if not (p == 1 and W is None):
+        # curved / rational pieces: no closed-form minimum, but no point of the curve may be closer than the returned ones —
+        # the curve is sampled (64 parameters per span and the knots) and the closest sample compared with the answer
+        kf_ = [float(k) for k in knots]
+        samples = sorted(set(kf_ + [a_ + (b_ - a_) * i_ / 64 for a_, b_ in zip(kf_[:-1], kf_[1:]) for i_ in range(1, 64)]))
+        vals_ = impl(lambda: curve(samples))
+        l3(rec, "sampled-lower-bound")
+        if vals_[0] == "ok":
+            dsamp, usamp = min((math.sqrt(sum((float(a) - b) ** 2 for a, b in zip(vec(v_), ptf))), u_) for v_, u_ in zip(vals_[1], samples))
+            if dsamp < min(ds) - 1e-6 * max(1.0, dsamp):
+                rec.violation("a point of the curve is closer to P than the returned parameters", case, returned=ds, parameters=ts,
+                              closer_parameter=usamp, closer_distance=dsamp)
+                return
     if c.get("label") in ("oncurve", "oncurve-rational") and min(ds) > 1e-6:
         rec.violation("a point on the curve is not projected onto itself", case, distance=min(ds), parameters=ts)
     # stationarity of interior non-knot parameters
@@ -111,6 +124,12 @@ def run_case(ctx, case):
 
 def run(ctx):
     rng = ctx["rng"]
+    # D38 witnesses: Newton leaves the piece on the far side, the nearer end must still be a candidate
+    run_case(ctx, ser(dict(kind="proj", label="beyond-rational", U=[F(0), F(0), F(1), F(1)], P=[(F(1, 4), F(3, 2)), (F(-3, 2), F(-5, 2))],
+                           W=[F(2), F(1, 2)], pt=[F(-25, 8), F(-51, 8)])))
+    run_case(ctx, ser(dict(kind="proj", label="beyond-rational", U=[F(0), F(0), F(1, 2), F(1), F(1)],
+                           P=[(F(3, 4), F(1, 4), F(-11, 4)), (F(-13, 4), F(9, 4), F(-13, 4)), (F(1, 4), F(-9, 4), F(-5, 2))],
+                           W=[F(4), F(6), F(1)], pt=[F(31, 8), F(-53, 8), F(-13, 8)])))
     # corpus: Newton step 0/0 -> NaN -> endless span search (repaired); degree-2 spline with a start parameter where C' = 0
     run_case(ctx, ser(dict(kind="proj", label="corpus", U=[F(0)] * 3 + [F(1)] + [F(2)] * 3,
                            P=[(F(0), F(0)), (F(1), F(1)), (F(2), F(0)), (F(3), F(1))], W=None, pt=[F(1), F(0)])))
